@@ -379,7 +379,9 @@ def bbnHigh (sf : α) : α := sqrt (nat 3) * sf
 /-- Filtered-noise stimuli (`notch_noise`, `bandlimited_noise`, `shaped_noise`, `bandlimited_fir_noise`):
 unit draws `u` → `polIn * uniform(low, high)` → `lfilter(b, a, ·, zi=z0)` → drop the discarded
 onset → `* polOut`.  (Notch: `polIn = polarity, polOut = 1`; the others: `polIn = 1, polOut = polarity`.)
-**After fixes C08_fix_1/2 the IIR factories start from the zero state** (`z0 = zeroState`). -/
+**After fix C08_fix_1 the notch filter starts from the zero state** (`z0 = zeroState`); the band-limited IIR
+factory starts from `lfilter_zi(b, a)` (not scaled with the level) and discards `ceil(fs)` samples; the FIR
+factories start from `lfilter_zi(taps)` and discard exactly the `ntaps-1` samples it can reach. -/
 def filtStim (polIn polOut low high b0 : α) (bt atl z0 : List α) (discard : Nat) (u : List α) : List α :=
   ((lfilter b0 bt atl z0 (u.map fun r => polIn * uniform low high r)).1.drop discard).map (· * polOut)
 
